@@ -187,6 +187,10 @@ def binop(ev, t, opn, a, b, inplace, ctx):
         # product of axis sizes: keep the ordered atomic factors (used by the reshape order rule)
         meta = ('dim', frozenset(['*'.join(sorted(a.meta[1])) + '*' + '*'.join(sorted(b.meta[1]))]), tuple(fa) + tuple(fb))
         kind = SCALAR
+    if meta is None and opn == 'Pow' and b.is_const and b.cval == 2 and not isinstance(b.cval, bool):
+        meta = ('elementwise', 'numpy.square', (a,))
+    if meta is None and opn == 'Mult' and a.vid is not None and a.vid == b.vid and real_dtype(a):
+        meta = ('elementwise', 'numpy.square', (a,))
     return AV(kind=kind, deps=deps, alias=alias, shape=shape, sign=sign, norm=norm, dtype=dtype, meta=meta,
               vid=None)
 
@@ -663,6 +667,29 @@ def h_view(axis_rule=None):
                 norm = ('UNIT', a2 if ax == a1 else a1 if ax == a2 else ax)
             elif isinstance(a1, int) and isinstance(a2, int) and a1 < 0 and a2 < 0 and x.shape is None:
                 pass
+        elif axis_rule == 'moveaxis':
+            src = const_of(argval(pos, kw, 1, 'source'))
+            dst = const_of(argval(pos, kw, 2, 'destination'))
+            if isinstance(src, int) and isinstance(dst, int) and not isinstance(src, bool) and not isinstance(dst, bool):
+                def moved(a, s_, d_):
+                    # new position of axis a (all three negative, counted from the right) when axis s_ is moved to d_
+                    if a == s_:
+                        return d_
+                    if s_ < a <= d_:
+                        return a - 1
+                    if d_ <= a < s_:
+                        return a + 1
+                    return a
+                if x.shape is not None:
+                    n = len(x.shape.dims)
+                    s_, d_ = x.shape.neg_axis(src), x.shape.neg_axis(dst)
+                    if s_ is not None and d_ is not None and -s_ <= n and -d_ <= n:
+                        dims = list(x.shape.dims)
+                        ax = dims.pop(n + s_)
+                        dims.insert(n + d_, ax)
+                        shape = Shape(x.shape.ell, tuple(dims))
+                if src < 0 and dst < 0 and isinstance(x.norm, tuple):
+                    norm = ('UNIT', moved(x.norm[1], src, dst))
         elif axis_rule == 'transpose':
             axes = argval(pos, kw, 1, 'axes')
             ac = axis_const(axes) if axes is not None else None
@@ -673,6 +700,13 @@ def h_view(axis_rule=None):
                     shape = Shape(False, tuple(reversed(x.shape.dims)))
                 elif ac is not TOP and isinstance(ac, tuple) and len(ac) == len(x.shape.dims):
                     shape = Shape(False, tuple(x.shape.dims[a] for a in ac))
+            if ac is not None and ac is not TOP and isinstance(ac, tuple) and all(isinstance(a, int) for a in ac) and isinstance(x.norm, tuple):
+                # an explicit permutation fixes the rank: follow the unit-norm axis
+                n = len(ac)
+                old = n + x.norm[1] if x.norm[1] < 0 else x.norm[1]
+                norm_ac = [a % n for a in ac]
+                if 0 <= old < n and old in norm_ac:
+                    norm = ('UNIT', norm_ac.index(old) - n)
         elif axis_rule == 'expand_dims':
             ax = const_of(argval(pos, kw, 1, 'axis'))
             if isinstance(ax, int) and x.shape is not None:
@@ -989,7 +1023,30 @@ reg('numpy.log numpy.log10 numpy.log2 numpy.angle numpy.cos numpy.sin numpy.tan 
     'numpy.nan_to_num numpy.negative scipy.special.ive scipy.special.hyp1f1 scipy.special.gammaln scipy.special.perm numpy.cumsum numpy.cumprod '
     'numpy.diff numpy.sort numpy.flip numpy.fft.fft numpy.fft.rfft numpy.fft.irfft scipy.special.factorial math.factorial numpy.isposinf', h_elementwise(None, dtype=None))
 reg('numpy.abs numpy.absolute', h_elementwise('abs', dtype='real'))
-reg('numpy.sqrt', h_elementwise('sqrt'))
+def h_sqrt(ev, name, pos, kw, ctx, t):
+    """sqrt(sum(|x|^2, axis=a, keepdims=True)) is the 2-norm of x along a, spelled out"""
+    r = h_elementwise('sqrt')(ev, name, pos, kw, ctx, t)
+    x = pos[0] if pos else None
+    try:
+        m = x.meta if x is not None else None
+        if m and m[0] == 'reduce' and str(m[1]).endswith('sum') and isinstance(m[2], int) and m[3] is True:
+            sq = m[4]
+            ms = sq.meta
+            if ms and ms[0] == 'elementwise' and ms[1] in ('numpy.square',) and ms[2]:
+                base = ms[2][0]
+                mb = base.meta
+                if mb and mb[0] == 'elementwise' and mb[1] in ('numpy.abs', 'numpy.absolute') and mb[2]:
+                    base = mb[2][0]
+                if base.vid is not None:
+                    na = m[2] if m[2] < 0 else (base.shape.neg_axis(m[2]) if base.shape is not None else None)
+                    if na is not None:
+                        r = r.replace(ncore=(base.vid, na, True))
+    except Exception:
+        pass
+    return r
+
+
+reg('numpy.sqrt', h_sqrt)
 reg('numpy.square', h_elementwise(None))
 reg('numpy.conj numpy.conjugate', h_elementwise('same', keeps_norm=True))
 reg('numpy.real numpy.imag', h_elementwise(None, dtype='real'))
@@ -1011,7 +1068,8 @@ reg('numpy.einsum', h_einsum)
 reg('numpy.trace', h_fresh())
 reg('numpy.swapaxes', h_view('swapaxes'))
 reg('numpy.transpose', h_view('transpose'))
-reg('numpy.moveaxis numpy.rollaxis numpy.ravel numpy.diagonal numpy.atleast_1d numpy.atleast_2d numpy.atleast_3d numpy.squeeze', h_view(None))
+reg('numpy.moveaxis', h_view('moveaxis'))
+reg('numpy.rollaxis numpy.ravel numpy.diagonal numpy.atleast_1d numpy.atleast_2d numpy.atleast_3d numpy.squeeze', h_view(None))
 reg('numpy.squeeze', h_view('squeeze'))
 reg('numpy.expand_dims', h_view('expand_dims'))
 reg('numpy.reshape', h_view('reshape'))
